@@ -770,6 +770,8 @@ def toplevel_copy_cases(g, n):
                 return lambda: [g.spell("Def") + "/" + nm, g.spell(anchor)] + ([[g.form(inner)]] if with_group else [])
             builders.append(on)
     out = []
+    if not builders:          # a schema without topLevelTagGroup tags (and no declared definitions)
+        return out
     for k in range(n):
         make = builders[k % len(builders)]()
         top = make()
